@@ -1,4 +1,6 @@
 """C06 - regions measure geometry and differentiate fields exactly where theory says so."""
+import itertools
+import re
 import warnings
 
 import numpy as np
@@ -8,6 +10,9 @@ from ..monitors import region as MR
 from ..util import Poly, maxabs, monomials_tensor, monomials_total, random_rotation, rng_for
 
 HESS_FAMILIES = {"quad", "quad8", "hexahedron", "triangle", "triangleMINI", "tetra", "tetraMINI"}
+# the length unit of a body is arbitrary (third audit, item 1): the non-affine classes, the uniform regions and the 2D field kinds are
+# driven in micrometres (SI), in large units and in millimetres as well. Scheduled by indices, never drawn.
+LENGTH_UNITS = (1e-6, 1e3, 4e-3)
 
 
 
@@ -44,16 +49,25 @@ def build_region(run, fam, mesh, hess):
     return reg, [x for x in w if "Negative volumes" in str(x.message)]
 
 
-def case_family(fam, geometry, rep):
+def case_family(fam, geometry, rep, unit=None):
+    """`unit`: the same workload on a body measured in another length unit (the generator scales the affine class only, where
+    d2Xdrdr vanishes and det is constant per cell: the geometric second-derivative term, the volume of non-affine cells and non-zero
+    hessians of quad / hex were evaluated at unit size only). The clauses are the same, counted under units tagged "@scaled"."""
     def fn(run):
         import felupe as fem
         F = gen.FAMILIES[fam]
         dim = F["dim"]
-        rng = rng_for(run.seed, "C06", fam, geometry, rep)
+        rng = rng_for(run.seed, "C06", fam, geometry, rep) if unit is None else rng_for(run.seed, "C06", fam, geometry, rep, "unit")
         n = tuple(int(x) for x in rng.integers(2, 5, dim)) if rep else None
         mesh, info = gen.build_mesh(fam, geometry, rng, n=n)
+        tag = ""
+        if unit is not None:
+            # maps and perturbations are drawn at the generator's size, then the whole body changes its unit
+            mesh = mesh.copy(points=unit * mesh.points)
+            info = dict(info, volume=None if info["volume"] is None else info["volume"] * unit ** dim)
+            tag = "@scaled"
         hess = fam in HESS_FAMILIES
-        label = "%s/%s" % (fam, geometry)
+        label = "%s/%s%s" % (fam, geometry, "" if unit is None else "[unit=%g]" % unit)
         MR.attach_reload_hook(run)
         try:
             reg, warned = build_region(run, fam, mesh, hess)
@@ -62,7 +76,7 @@ def case_family(fam, geometry, rep):
         mon = "region." + fam
         # --- positivity, warning clause (valid mesh => no warning)
         if np.all(reg.dV > 0) and not warned:
-            run.ok(mon, unit=fam + ":dV>0", config=(label, "dV>0"))
+            run.ok(mon, unit=fam + ":dV>0" + tag, config=(label, "dV>0"))
         else:
             run.fail(mon, "template=%s geometry=%s clause=dV>0" % (fam, geometry),
                      "%s: valid mesh gives non-positive dV or a negative-volume warning" % label,
@@ -71,7 +85,7 @@ def case_family(fam, geometry, rep):
         if info["volume"] is not None:
             run.compare(mon, "template=%s geometry=%s clause=volume" % (fam, geometry),
                         abs(reg.dV.sum() - info["volume"]) / info["volume"], 1e-11,
-                        "%s: sum dV != geometric volume" % label, unit=fam + ":volume", config=(label, "volume"),
+                        "%s: sum dV != geometric volume" % label, unit=fam + ":volume" + tag, config=(label, "volume"),
                         sample={"template": F["region"], "geometry": geometry, "cells": int(mesh.ncells),
                                 "sum_dV": float(reg.dV.sum()), "expected": info["volume"]})
         # --- rigid motion invariance of every dV
@@ -81,7 +95,7 @@ def case_family(fam, geometry, rep):
         reg2 = gen.make_region(fam, mesh2)
         run.compare(mon, "template=%s geometry=%s clause=rigid-motion" % (fam, geometry),
                     abs(reg2.dV.sum() - reg.dV.sum()) / reg.dV.sum(), 1e-11, "%s: measured volume changes under rigid motion"
-                    % label, unit=fam + ":rigid-motion", config=(label, "rigid"))
+                    % label, unit=fam + ":rigid-motion" + tag, config=(label, "rigid"))
         if not np.all(reg2.dV > 0):
             run.fail(mon, "template=%s geometry=%s clause=dV>0-after-rigid-motion" % (fam, geometry),
                      "%s: non-positive dV after a rigid motion of a valid mesh" % label)
@@ -123,25 +137,52 @@ def case_family(fam, geometry, rep):
             ref = np.stack([p(Xq) for p in polys], 0)
             run.compare(mon, "template=%s geometry=%s clause=interpolate" % (fam, geometry),
                         maxabs(fld.interpolate() - ref) / fs, 1e-11, "%s: interpolate does not reproduce a degree-%d polynomial"
-                        % (label, order), unit=fam + ":interpolate", config=(label, "interpolate", order))
+                        % (label, order), unit=fam + ":interpolate" + tag, config=(label, "interpolate", order))
             gref = np.stack([np.moveaxis(p.grad(Xq), -1, 0) for p in polys], 0)
             run.compare(mon, "template=%s geometry=%s clause=grad" % (fam, geometry),
                         maxabs(fld.grad() - gref) * hs / fs, 1e-10, "%s: grad does not reproduce the analytic gradient of a "
-                        "degree-%d polynomial" % (label, order), unit=fam + ":grad", config=(label, "grad", order))
+                        "degree-%d polynomial" % (label, order), unit=fam + ":grad" + tag, config=(label, "grad", order))
             if hess:
                 href = np.stack([np.moveaxis(p.hess(Xq), (-2, -1), (0, 1)) for p in polys], 0)
                 run.compare(mon, "template=%s geometry=%s clause=hess" % (fam, geometry),
                             maxabs(fld.hess() - href) * hs ** 2 / fs, 1e-9,
                             "%s: hess does not reproduce the analytic hessian of a degree-%d polynomial" % (label, order),
-                            unit=fam + ":hess", config=(label, "hess", order))
+                            unit=fam + ":hess" + tag, config=(label, "hess", order))
             # container extract = grad + identity / interpolate
             if ncomp == dim:
                 fc = fem.FieldContainer([fld])
                 Fx = fc.extract()[0]
                 eye = np.eye(dim).reshape(dim, dim, 1, 1)
                 run.compare(mon, "template=%s clause=extract" % fam, maxabs(Fx - (gref + eye)) * hs / fs, 1e-10,
-                            "%s: extract() != grad + identity" % label, unit=fam + ":extract")
+                            "%s: extract() != grad + identity" % label, unit=fam + ":extract" + tag)
     return fn
+
+
+def multilinear(xi_v, xi):
+    """Oracle side: values (n, v) and derivatives (n, v, d) of the multilinear vertex functions prod_k (1 + xi_vk xi_k) / 2^d of a
+    quad / hexahedron with vertices at the reference positions `xi_v` (any order), at the reference points `xi` (n, d)."""
+    d = xi_v.shape[1]
+    f = 1 + xi_v[None, :, :] * xi[:, None, :]
+    N = np.prod(f, axis=2) / 2 ** d
+    dN = np.stack([xi_v[None, :, k] * np.prod(np.delete(f, k, axis=2), axis=2) for k in range(d)], axis=2) / 2 ** d
+    return N, dN
+
+
+def judge_warning(run, fam, m2, bad, what, unit=None):
+    """Exactly one warning, naming exactly the cells `bad` (known to the workload), which are the cells with any negative dV."""
+    with warnings.catch_warnings(record=True) as w:
+        warnings.simplefilter("always")
+        reg = gen.make_region(fam, m2)
+    msgs = [str(x.message) for x in w if "Negative volumes" in str(x.message)]
+    neg = np.where(np.any(reg.dV < 0, axis=0))[0]
+    named = [int(x) for x in re.findall(r"\d+", msgs[0].split("Try")[0])] if len(msgs) == 1 else None  # the ids before the advice
+    if len(msgs) == 1 and np.array_equal(neg, bad) and named == [int(c) for c in bad]:
+        run.ok("region.warning", unit=unit or fam + ":warning", config=(fam, "warning", what))
+    else:
+        run.fail("region.warning", "template=%s clause=warning[%s]" % (fam, what),
+                 "%s (%s): cells %s are not reported by exactly one warning naming exactly them" % (fam, what, [int(c) for c in bad]),
+                 {"warnings": msgs, "negative_cells": neg})
+    return reg
 
 
 def case_warning(fam):
@@ -179,7 +220,64 @@ def case_warning(fam):
                 run.fail("region.warning", "template=%s clause=warning" % fam,
                          "%s: inverted cells %s are not reported by exactly one warning naming them" % (fam, bad.tolist()),
                          {"warnings": msgs, "negative_cells": neg})
+        # ---- a tiny inverted cell among large valid ones (third audit, item 2): a threshold relative to the largest dV of the mesh
+        #      instead of "dV < 0" is blind to it; the scale trials above scale all cells together
+        P = mesh.points[mesh.cells]
+        bad = np.sort(rng.choice(mesh.ncells, size=int(rng.integers(1, min(4, mesh.ncells))), replace=False))
+        Q = P.copy()
+        for c in bad:
+            cen = Q[c].mean(0)
+            nrm = np.zeros(dim)
+            nrm[int(rng.integers(0, dim))] = 1.0
+            Q[c] = cen + 1e-4 * (Q[c] - cen)
+            Q[c] = Q[c] - 2 * ((Q[c] - cen) @ nrm)[:, None] * nrm
+        judge_warning(run, fam, fem.Mesh(Q.reshape(-1, dim), cells, mesh.cell_type), bad, "tiny-inverted-cell")
+        # ---- folded cells: one vertex pushed across the opposite diagonal. The Jacobian is negative at some quadrature points
+        #      only and the cell volume stays positive, so a report built on "all points negative", on the sum or on the mean of dV
+        #      of a cell misses them. Reflected cells (above) cannot tell these from "any point negative".
+        #      Oracle: the straight-sided cell is the multilinear map of its vertices (also for the quadratic families, whose
+        #      other nodes are placed by that map); its Jacobian at the Gauss points is evaluated here in closed form.
+        if not fam.startswith(("tri", "tet")):
+            F = gen.FAMILIES[fam]
+            nv = F["nv"]
+            P0 = mesh.points[mesh.cells]
+            lo, hi = P0.min(1, keepdims=True), P0.max(1, keepdims=True)
+            xi = 2 * (P0 - lo) / (hi - lo) - 1  # reference coordinates of every node, read from the box-shaped cells themselves
+            g1 = np.array([-1.0, 1.0]) / np.sqrt(3.0) if F["order"] == 1 else np.array([-1.0, 0.0, 1.0]) * np.sqrt(0.6)
+            gp = np.array(list(itertools.product(g1, repeat=dim)))
+            g2 = np.array(list(itertools.product(np.array([-1.0, 1.0]) / np.sqrt(3.0), repeat=dim)))  # exact for the volume
+            for trial in range(3):
+                P = P0 * [1.0, 1e-6, 1e3][trial]
+                bad = np.sort(rng.choice(mesh.ncells, size=int(rng.integers(1, min(4, mesh.ncells))), replace=False))
+                Q = P.copy()
+                npts = {}
+                for c in bad:
+                    xv = xi[c, :nv]
+                    v = int(rng.integers(0, nv))
+                    opp = int(np.argmin(xv @ xv[v]))
+                    vol0 = float(np.prod(hi[c] - lo[c])) * [1.0, 1e-6, 1e3][trial] ** dim
+                    for alpha in np.linspace(0.6, 0.95, 15):
+                        V = P[c, :nv].copy()
+                        V[v] = V[v] + alpha * (V[opp] - V[v])
+                        det = np.linalg.det(np.einsum("vI,qvK->qIK", V, multilinear(xv, gp)[1])) * 2 ** dim / vol0
+                        vol = float(np.linalg.det(np.einsum("vI,qvK->qIK", V, multilinear(xv, g2)[1])).sum()) / vol0
+                        if np.any(det < 0) and not np.all(det < 0) and np.abs(det).min() > 0.01 and vol > 0.1:
+                            break
+                    else:
+                        raise AssertionError("workload: no folded cell with a clear sign pattern found")
+                    Q[c] = multilinear(xv, xi[c])[0] @ V
+                    npts[int(c)] = int((det < 0).sum())
+                reg = judge_warning(run, fam, fem.Mesh(Q.reshape(-1, dim), cells, mesh.cell_type), bad, "folded-cell", unit=fam + ":warning-folded")
+                # the sign of dV is the sign of the Jacobian at that point (positive weights): as many negative points as the oracle counts
+                got = {int(c): int((reg.dV[:, c] < 0).sum()) for c in bad}
+                if got != npts or not np.all(reg.dV.sum(0)[bad] > 0):
+                    run.fail("region.warning", "template=%s clause=folded-cell-sign-pattern" % fam,
+                             "%s: a folded cell does not have negative dV at exactly the quadrature points with a negative Jacobian" % fam,
+                             {"negative_points": got, "expected": npts})
+                else:
+                    run.ok("region.warning", unit=fam + ":warning-folded")
         # and no warning without cause
+        P = mesh.points[mesh.cells] * 1e-7
         with warnings.catch_warnings(record=True) as w:
             warnings.simplefilter("always")
             gen.make_region(fam, fem.Mesh(P.reshape(-1, dim), cells, mesh.cell_type))
@@ -271,6 +369,14 @@ def case_more(rep):
                     "%s: value of a field with a non-zero bubble unknown is not the linear part plus the bubble" % famb, unit="more:bubble", config=("bubble", famb, mult is None))
         run.compare(mon, "template=%s clause=bubble-grad" % famb, maxabs(fb.grad()[0] - ref_g) * Lb, 1e-9,
                     "%s: gradient of a field with a non-zero bubble unknown is not the linear part plus the bubble's gradient" % famb, unit="more:bubble")
+        # ... and the hessian: the bubble row of d2hdXdX is multiplied by zero in every other case (third audit, item 6). The linear part
+        # has none; hess(prod lambda) = sum_{u != v} prod_{w not in {u, v}} lambda_w grad(lambda_u) (x) grad(lambda_v)
+        hprod = sum(np.einsum("qc,ic,jc->ijqc", np.prod(np.delete(lam, [u, v], axis=2), axis=2), glam[:, :, u], glam[:, :, v])
+                    for u in range(nvb) for v in range(nvb) if u != v)
+        ref_h = beta[None, None, None, :] * m_eff * hprod
+        run.compare(mon, "template=%s clause=bubble-hess" % famb, maxabs(fb.hess()[0] - ref_h) * Lb ** 2, 1e-10,
+                    "%s: hessian of a field with a non-zero bubble unknown is not the bubble's hessian (the linear part has none)" % famb, unit="more:bubble-hess",
+                    config=("bubble-hess", famb, mult is None))
         # ---- 3. 2D field kinds: symmetric gradient flag, list-valued extract flags of a two-field container
         fam2 = ["quad", "quad8", "triangle"][rep % 3]
         mesh2, _ = gen.build_mesh(fam2, "distorted" if not fam2.startswith("tri") else "affine", rng)
@@ -496,7 +602,8 @@ def case_paths(rep):
         ufam = "quad" if rep % 2 == 0 else "hexahedron"
         ud = gen.FAMILIES[ufam]["dim"]
         g0 = gen.FAMILIES[ufam]["base"](tuple(int(x) for x in rng.integers(3, 5, ud)))
-        Au = np.eye(ud) + 0.3 * np.triu(rng.uniform(-1, 1, (ud, ud)), 1)
+        # ... in the length units of LENGTH_UNITS as well (rep % 3: unit size, micrometres, large; both families see each in six reps)
+        Au = (1.0, LENGTH_UNITS[0], LENGTH_UNITS[1])[rep % 3] * (np.eye(ud) + 0.3 * np.triu(rng.uniform(-1, 1, (ud, ud)), 1))
         um_ = g0.copy(points=g0.points @ Au.T)
         ru = gen.make_region(ufam, um_, uniform=True, hess=True)
         uh = np.array([ru.element.function(pt) for pt in ru.quadrature.points]).T
@@ -518,7 +625,204 @@ def case_paths(rep):
         hg = np.moveaxis(hg, (-2, -1), (0, 1))[None]
         run.compare(mon, "template=%s[uniform,sheared] clause=hess" % ufam, maxabs(fbg.hess() - hg) * uhs ** 2 / max(1.0, maxabs(fbg.values)), 1e-9,
                     "uniform region with hess=True on a sheared grid: hessian of a multilinear function of the grid coordinates is wrong", unit="paths:uniform-hess")
+        paths_reload_arguments(run, rng, rep, fam)
+        paths_field_arguments(run, rng, rep)
     return fn
+
+
+def volume_of(region):
+    """Sum of the differential volumes (a uniform region stores those of one cell)."""
+    return float(region.dV.sum()) * region.mesh.ncells / region.dV.shape[-1]
+
+
+def judge_region(run, key, unit, region, mesh, volume, rng, order, what, rule, element, config=None, hess=False, tol32=False, vtol=1e-11):
+    """The volume / reproduction clauses on a region that was produced by reload / copy / astype with some argument pattern:
+    sum dV = known volume, and value + gradient (+ hessian) of a body-scaled polynomial of total degree `order` at the physical
+    quadrature points, which are computed here from the functions of `element` at the points of `rule`: the objects the caller
+    asked for (or the template's own where the call did not name any), never those the region holds afterwards."""
+    import felupe as fem
+    mon = "region.paths"
+    X = mesh.points
+    dim = X.shape[1]
+    el, qd = element, rule
+    hq = np.array([el.function(pt) for pt in qd.points]).T
+    nq = len(qd.points)
+    shapes = (region.h.shape[:2], region.dhdX.shape[0], region.dhdX.shape[2], region.dV.shape[0])
+    if shapes != ((hq.shape[0], nq), hq.shape[0], nq, nq):
+        run.fail(mon, key + " clause=shapes", "%s: the arrays of the region do not have the element's functions x the rule's points" % what, {"shapes": shapes, "expected": (hq.shape, nq)})
+        return
+    run.compare(mon, key + " clause=volume", abs(volume_of(region) - volume) / volume, vtol if not tol32 else 5e-5,
+                "%s: the differential volumes do not measure the geometry" % what, unit=unit, config=config)
+    Xq = np.einsum("caI,aq->qcI", X[mesh.cells[:, :hq.shape[0]]], hq)
+    ps = [BodyPoly(Poly(rng, dim, monomials_total(dim, order)), X) for _ in range(2)]
+    f = fem.Field(region, dim=2, values=np.stack([p(X) for p in ps], axis=1))
+    hs = float(np.min(X[mesh.cells].max(1) - X[mesh.cells].min(1)))
+    fs = max(1.0, maxabs(f.values))
+    bc = lambda a: np.broadcast_to(a, a.shape[:-1] + (mesh.ncells,))
+    run.compare(mon, key + " clause=interpolate", maxabs(bc(np.asarray(f.interpolate(), float)) - np.stack([p(Xq) for p in ps], 0)) / fs, 1e-11 if not tol32 else 1e-5,
+                "%s: interpolation does not reproduce a degree-%d polynomial" % (what, order), unit=unit)
+    run.compare(mon, key + " clause=grad", maxabs(bc(np.asarray(f.grad(), float)) - np.stack([np.moveaxis(p.grad(Xq), -1, 0) for p in ps], 0)) * hs / fs, 1e-10 if not tol32 else 5e-4,
+                "%s: the gradient does not reproduce the analytic gradient of a degree-%d polynomial" % (what, order), unit=unit)
+    if hess:
+        href = np.stack([np.moveaxis(p.hess(Xq), (-2, -1), (0, 1)) for p in ps], 0)
+        run.compare(mon, key + " clause=hess", maxabs(bc(np.asarray(f.hess(), float)) - href) * hs ** 2 / fs, 1e-9 if not tol32 else 5e-3,
+                    "%s: the hessian does not reproduce the analytic hessian of a degree-%d polynomial" % (what, order), unit=unit)
+
+
+def paths_reload_arguments(run, rng, rep, fam):
+    """Third audit, item 4: `reload`, `copy` and `astype` take each of mesh / element / quadrature / grad / hess / uniform (resp. copy=)
+    optionally, and were driven with one pattern each. Every pattern here ends in the same clauses (volume, reproduction at the
+    quadrature points the caller asked for), so a re-evaluation guard that forgets one argument (stale h after reload(quadrature=))
+    shows as a wrong shape or a wrong value."""
+    import felupe as fem
+    Fm = gen.FAMILIES[fam]
+    dim = Fm["dim"]
+    simplex = fam.startswith(("tri", "tet"))
+
+    def rule2():
+        if simplex:
+            return fem.quadrature.Triangle(order=5) if dim == 2 else fem.quadrature.Tetrahedron(order=5)
+        return fem.GaussLegendre(order=Fm["order"] + 1, dim=dim)
+    mesh, info = gen.build_mesh(fam, "affine", rng)
+    vol = info["volume"]
+    reg = gen.make_region(fam, mesh)
+    nq0 = reg.h.shape[1]
+    e0, q0 = reg.element, reg.quadrature  # the template's own pair (judged by the h-pairing clause of this case)
+    lab = "template=%s" % fam
+    vtol = 1e-10 if simplex else 1e-11  # the order-5 simplex tables carry 13 digits (DESIGN 3.5-5: table precision is per scheme)
+    # ---- copy(quadrature=): the copy follows the other rule, the original keeps its own
+    q2 = rule2()
+    rc = reg.copy(quadrature=q2)
+    judge_region(run, lab + " path=copy(quadrature=)", "paths:copy-args", rc, mesh, vol, rng, Fm["order"], "region.copy(quadrature=rule with %d points)" % len(q2.points), q2, e0, config=(fam, "copy(quadrature)"), vtol=vtol)
+    if reg.h.shape[1] != nq0 or reg.quadrature is q2:
+        run.fail("region.paths", lab + " path=copy(quadrature=) clause=original-untouched", "region.copy(quadrature=) changed the region it was called on")
+    # ---- copy(mesh=): another body, the original keeps its own
+    A, t = gen.random_affine(rng, dim)
+    L = float(np.ptp(mesh.points, axis=0).max())
+    m2 = mesh.copy(points=mesh.points @ A.T + t * L)
+    v0 = volume_of(reg)
+    rm = reg.copy(mesh=m2)
+    judge_region(run, lab + " path=copy(mesh=)", "paths:copy-args", rm, m2, vol * float(np.linalg.det(A)), rng, Fm["order"], "region.copy(mesh=affine image)", q0, e0, config=(fam, "copy(mesh)"))
+    if volume_of(reg) != v0 or reg.mesh is m2:
+        run.fail("region.paths", lab + " path=copy(mesh=) clause=original-untouched", "region.copy(mesh=) changed the region it was called on")
+    # ---- reload(quadrature=) alone: h, dhdr, dhdX, dV must all be rebuilt at the other points
+    q3 = rule2()
+    reg.reload(quadrature=q3)
+    judge_region(run, lab + " path=reload(quadrature=)", "paths:reload-args", reg, mesh, vol, rng, Fm["order"], "region.reload(quadrature=)", q3, e0, config=(fam, "reload(quadrature)"), vtol=vtol)
+    # ---- reload(mesh=, element=) together: the linear families take the serendipity element on the mesh with mid-edge nodes
+    if fam in ("quad", "hexahedron"):
+        mq = mesh.add_midpoints_edges()
+        e2 = fem.QuadraticQuad() if fam == "quad" else fem.QuadraticHexahedron()
+        reg.reload(mesh=mq, element=e2)
+        judge_region(run, lab + " path=reload(mesh=,element=)", "paths:reload-args", reg, mq, vol, rng, 2, "region.reload(mesh=with mid-edge nodes, element=serendipity)", q3, e2, config=(fam, "reload(mesh,element)"))
+    # ---- reload(hess=True) on an existing region (quadratic hessians on affine cells, the geometric term on distorted ones)
+    famh = ["quad8", "tetra", "quad", "triangle", "hexahedron", "triangleMINI"][rep % 6]
+    geo = "distorted" if famh in ("quad", "hexahedron") else "affine"
+    mh, ih = gen.build_mesh(famh, geo, rng)
+    unit = ((1.0,) + LENGTH_UNITS)[(rep // 6) % 4]  # thorough tier: in other units as well
+    mh = mh.copy(points=unit * mh.points)
+    rh = gen.make_region(famh, mh)
+    eh, qh = rh.element, rh.quadrature
+    rh.reload(hess=True)
+    if gen.FAMILIES[famh].get("mini"):
+        run.compare("region.paths", "template=%s path=reload(hess=True) clause=volume" % famh, abs(volume_of(rh) - ih["volume"] * unit ** mh.dim) / (ih["volume"] * unit ** mh.dim), 1e-11,
+                    "region.reload(hess=True): the differential volumes do not measure the geometry", unit="paths:reload-args", config=(famh, "reload(hess)"))
+        MR.check_region_structural(run, rh, label="reload(hess=True)/" + famh)
+    else:
+        judge_region(run, "template=%s path=reload(hess=True)" % famh, "paths:reload-args", rh, mh, ih["volume"] * unit ** mh.dim, rng, 2 if famh == "quad8" else 1,
+                     "region.reload(hess=True)", qh, eh, config=(famh, "reload(hess)", unit), hess=True)
+    # ---- astype(copy=False): the same object, every array cast
+    r32 = rh.astype(np.float32, copy=False)
+    arrays = ["h", "dhdr", "dXdr", "drdX", "dhdX", "dV", "d2hdrdr", "d2hdXdX"]
+    if r32 is not rh or any(getattr(rh, a).dtype != np.float32 for a in arrays):
+        run.fail("region.paths", "template=%s path=astype(copy=False) clause=in-place" % famh,
+                 "astype(float32, copy=False) does not return the region itself with every array cast", {a: str(getattr(rh, a).dtype) for a in arrays})
+    elif not gen.FAMILIES[famh].get("mini"):
+        judge_region(run, "template=%s path=astype(copy=False)" % famh, "paths:astype-inplace", rh, mh, ih["volume"] * unit ** mh.dim, rng, 2 if famh == "quad8" else 1,
+                     "region.astype(float32, copy=False)", qh, eh, config=(famh, "astype(copy=False)"), hess=True, tol32=True)
+    else:
+        run.ok("region.paths", unit="paths:astype-inplace")
+    # ---- a uniform region through the documented refresh mesh.update(points, callback=region.reload), through copy() and astype()
+    ufam = ["quad", "hexahedron", "quad9"][rep % 3]
+    Fu = gen.FAMILIES[ufam]
+    g0 = Fu["conv"](Fu["base"](tuple(int(x) for x in rng.integers(3, 5, Fu["dim"]))))
+    ru = gen.make_region(ufam, g0, uniform=True)
+    eu, qu = ru.element, ru.quadrature
+    vu = float(np.prod(np.ptp(g0.points, axis=0)))
+    for path in ("copy()", "copy(uniform=True)", "astype(float64)", "update(callback=reload)"):
+        if path == "update(callback=reload)":
+            Au = unit * (np.eye(Fu["dim"]) + 0.3 * np.triu(rng.uniform(-1, 1, (Fu["dim"],) * 2), 1))  # congruent cells stay congruent
+            g0.update(points=g0.points @ Au.T, callback=ru.reload)
+            vu, r_ = vu * float(np.linalg.det(Au)), ru
+        else:
+            r_ = {"copy()": lambda: ru.copy(), "copy(uniform=True)": lambda: ru.copy(uniform=True), "astype(float64)": lambda: ru.astype(np.float64)}[path]()
+        judge_region(run, "template=%s[uniform=True] path=%s" % (ufam, path), "paths:uniform-reload", r_, g0, vu, rng, 1, "uniform=True region after %s" % path, qu, eu, config=(ufam, "uniform", path))
+
+
+def paths_field_arguments(run, rng, rep):
+    """Third audit, item 9: the argument types of Field / grad / hess / interpolate that no case passed: Fortran-ordered value arrays,
+    a value array of size dim (one value per component), dtype=, order=, hess(out=). Integer fill values are left out: `values=0`
+    makes an integer field by documented intent (DESIGN section 6, observations of the third audit)."""
+    import felupe as fem
+    mon = "region.paths"
+    fam = ["quad8", "hexahedron", "triangle", "quad", "tetra", "triangleMINI"][rep % 6]
+    F = gen.FAMILIES[fam]
+    dim = F["dim"]
+    mesh, _ = gen.build_mesh(fam, "affine", rng)
+    reg = gen.make_region(fam, mesh, hess=True)
+    X = mesh.points
+    Xq = physical_qp(reg)
+    hs = float(np.min(X[mesh.cells].max(1) - X[mesh.cells].min(1)))
+    ps = [BodyPoly(Poly(rng, dim, monomials_total(dim, 1 if F.get("mini") else F["order"])), X) for _ in range(dim)]
+    vals = np.stack([p(X) for p in ps], axis=1)
+    if F.get("mini"):
+        vals[mesh.cells[:, -1]] = 0.0
+    uref = np.stack([p(Xq) for p in ps], 0)
+    gref = np.stack([np.moveaxis(p.grad(Xq), -1, 0) for p in ps], 0)
+    href = np.stack([np.moveaxis(p.hess(Xq), (-2, -1), (0, 1)) for p in ps], 0)
+    fs = max(1.0, maxabs(vals))
+    lab = "template=%s" % fam
+    # Fortran-ordered values, Fortran-ordered results
+    ff = fem.Field(reg, dim=dim, values=np.asfortranarray(vals))
+    run.compare(mon, lab + " clause=fortran-values-grad(order=F)", maxabs(ff.grad(order="F") - gref) * hs / fs, 1e-10,
+                "Field on a Fortran-ordered value array: grad(order='F') is not the analytic gradient", unit="paths:field-args", config=(fam, "field-args"))
+    run.compare(mon, lab + " clause=fortran-values-interpolate(order=F)", maxabs(ff.interpolate(order="F") - uref) / fs, 1e-11,
+                "Field on a Fortran-ordered value array: interpolate(order='F') is not the polynomial", unit="paths:field-args")
+    buf = np.full(href.shape, 7.0)
+    got = ff.hess(out=buf)
+    run.compare(mon, lab + " clause=hess(out=)", max(maxabs(got - href), maxabs(buf - href)) * hs ** 2 / fs, 1e-9,
+                "Field.hess(out=buffer with other content): returned array or buffer is not the analytic hessian", unit="paths:field-args")
+    # dtype=: the values are cast, the result is the single-precision image of the polynomial
+    f32 = fem.Field(reg, dim=dim, values=vals, dtype=np.float32)
+    if f32.values.dtype != np.float32:
+        run.fail(mon, lab + " clause=field-dtype", "Field(dtype=float32) holds %s values" % f32.values.dtype)
+    run.compare(mon, lab + " clause=field-dtype-grad", maxabs(np.asarray(f32.grad(), float) - gref) * hs / fs, 5e-5,
+                "Field(dtype=float32): gradient is not the analytic one within single precision", unit="paths:field-args")
+    # one value per component (not on MINI regions: the bubble unknown is an amplitude, the same value there is no constant field)
+    if not F.get("mini"):
+        cv = rng.uniform(1, 3, dim)
+        fc = fem.Field(reg, dim=dim, values=cv)
+        run.compare(mon, lab + " clause=values-per-component", max(maxabs(fc.interpolate() - cv.reshape(-1, 1, 1)), maxabs(fc.grad()) * hs), 1e-12,
+                    "Field(values=array of size dim): not the constant field with these components (value / zero gradient)", unit="paths:field-args")
+        if fc.values.shape != (mesh.npoints, dim):
+            run.fail(mon, lab + " clause=values-per-component-shape", "Field(values=array of size dim) has values of shape %s" % (fc.values.shape,))
+    if dim == 2:
+        # dtype= of the 2D kinds (values and radius)
+        m2 = mesh.copy(points=X + np.array([0.0, 0.7 * float(np.ptp(X, axis=0).max()) - X[:, 1].min()]))
+        r2 = gen.make_region(fam, m2)
+        Xq2 = physical_qp(r2)
+        p2 = [BodyPoly(Poly(rng, 2, monomials_total(2, 1)), m2.points) for _ in range(2)]
+        v2 = np.stack([p(m2.points) for p in p2], axis=1)
+        if F.get("mini"):
+            v2[m2.cells[:, -1]] = 0.0
+        for Fcls in (fem.FieldAxisymmetric, fem.FieldPlaneStrain):
+            g = np.asarray(Fcls(r2, dim=2, values=v2, dtype=np.float32).grad(), float)
+            ref = np.zeros_like(g)
+            ref[:2, :2] = np.stack([np.moveaxis(p.grad(Xq2), -1, 0) for p in p2], 0)
+            if Fcls is fem.FieldAxisymmetric:
+                ref[2, 2] = p2[1](Xq2) / Xq2[..., 1]
+            run.compare(mon, lab + " clause=%s(dtype=float32)-grad" % Fcls.__name__, maxabs(g - ref) * hs / max(1.0, maxabs(v2)), 5e-5,
+                        "%s(dtype=float32): gradient is not the analytic one within single precision" % Fcls.__name__, unit="paths:field-args")
 
 
 BOUNDARY_TEMPLATES = {"quad": "RegionQuadBoundary", "quad8": "RegionQuadraticQuadBoundary", "quad9": "RegionBiQuadraticQuadBoundary",
@@ -561,19 +865,39 @@ def case_boundary_templates(fam, rep):
 
 
 def case_fields(kind):
+    """The 2D field kinds on every 2D template (third audit, item 5: quad9, triangle6, triangleMINI - whose bubble takes no part in the
+    radius - and RegionLagrange never carried one), affine bodies in the generator's units and distorted bodies in the units of
+    LENGTH_UNITS; axisymmetric bodies sit at a radius of the order of their own size."""
     def fn(run):
         import felupe as fem
         rng = rng_for(run.seed, "C06", "fields", kind)
-        for fam in ("quad", "quad8", "triangle"):
-            for geometry in ("affine", "distorted"):
-                mesh, _ = gen.build_mesh(fam, geometry, rng)
+        fams = ("quad", "quad8", "triangle", "quad9", "triangle6", "triangleMINI", "lagrange")
+        configs = [(fam, geometry, None) for fam in fams[:3] for geometry in ("affine", "distorted")]
+        configs += [(fam, "affine", None) for fam in fams[3:]] + [(fam, "distorted", LENGTH_UNITS[i % 3]) for i, fam in enumerate(fams)]
+        for fam, geometry, unit in configs:
+                if fam == "lagrange":
+                    # one cubic cell under an affine map / the bi-quadratic multi-cell mesh with displaced nodes
+                    if geometry == "affine":
+                        mesh = gen.lagrange_mesh(3, 2)
+                        mesh = mesh.copy(points=mesh.points @ gen.random_affine(rng, 2)[0].T)
+                        order = 3
+                    else:
+                        mesh, order = gen.build_mesh("quad9", "distorted", rng)[0], 2
+                    F = {"order": order}
+                else:
+                    mesh, _ = gen.build_mesh(fam, geometry, rng)
+                    F = gen.FAMILIES[fam]
+                if unit is not None:
+                    mesh = mesh.copy(points=unit * mesh.points)
                 if kind == "axisymmetric":
                     # keep the body away from the axis (R = X[:, 1] > 0)
                     mesh = mesh.copy(points=mesh.points + np.array([0.0, 0.7 * float(np.ptp(mesh.points, axis=0).max()) - mesh.points[:, 1].min()]))
-                reg = gen.make_region(fam, mesh)
-                exps = monomials_total(2, 1 if geometry == "distorted" else gen.FAMILIES[fam]["order"])
+                reg = fem.RegionLagrange(mesh, order=order, dim=2) if fam == "lagrange" else gen.make_region(fam, mesh)
+                exps = monomials_total(2, 1 if geometry == "distorted" or F.get("mini") else F["order"])
                 polys = [BodyPoly(Poly(rng, 2, exps), mesh.points) for _ in range(2)]
                 vals = np.stack([p(mesh.points) for p in polys], 1)
+                if F.get("mini"):
+                    vals[mesh.cells[:, -1]] = 0.0  # the bubble is a hierarchical unknown, not a nodal value
                 Xq = physical_qp(reg)
                 g2 = np.stack([np.moveaxis(p.grad(Xq), -1, 0) for p in polys], 0)
                 u2 = np.stack([p(Xq) for p in polys], 0)
@@ -590,11 +914,12 @@ def case_fields(kind):
                     ref = np.zeros((3, 3, *g2.shape[2:]))
                     ref[:2, :2] = g2
                     ref[2, 2] = u2[1] / Xq[..., 1]
+                ufam = ":" + fam if fam in fams[3:] else ""  # the members added by the audit are must-reach units of their own
                 run.compare("field." + kind, "field=%s template=%s clause=grad" % (kind, fam),
                             maxabs(g - ref) * hs / fs, 1e-10,
                             "%s field on %s: gradient is not the zero-padded in-plane gradient%s" %
                             (kind, fam, " with hoop term u_r/R" if kind == "axisymmetric" else ""),
-                            unit=kind + ":grad", config=(kind, fam, geometry))
+                            unit=kind + ":grad" + ufam, config=(kind, fam, geometry, unit))
                 ui = fld.interpolate()
                 refu = np.zeros((3, *u2.shape[1:]))
                 refu[:2] = u2
@@ -605,16 +930,209 @@ def case_fields(kind):
                 run.compare("field." + kind, "field=%s template=%s clause=extract" % (kind, fam),
                             maxabs(Fx - (ref + np.eye(3).reshape(3, 3, 1, 1))) * hs / fs, 1e-10,
                             "%s field: extract() != grad + I (3x3)" % kind, unit=kind + ":extract")
-                if kind == "planestrain" and fam in HESS_FAMILIES:
+                if fam in HESS_FAMILIES:
                     regh = gen.make_region(fam, mesh, hess=True)
-                    fh = fem.FieldPlaneStrain(regh, dim=2, values=vals)
                     h2 = np.stack([np.moveaxis(p.hess(Xq), (-2, -1), (0, 1)) for p in polys], 0)
-                    refh = np.zeros((3, 3, 3, *h2.shape[3:]))
-                    refh[:2, :2, :2] = h2
-                    run.compare("field." + kind, "field=%s template=%s clause=hess" % (kind, fam),
-                                maxabs(fh.hess() - refh) * hs ** 2 / fs, 1e-9, "plane-strain hess is not the zero-padded hessian",
-                                unit=kind + ":hess")
+                    if kind == "planestrain":
+                        fh = fem.FieldPlaneStrain(regh, dim=2, values=vals)
+                        refh = np.zeros((3, 3, 3, *h2.shape[3:]))
+                        refh[:2, :2, :2] = h2
+                        run.compare("field." + kind, "field=%s template=%s clause=hess" % (kind, fam),
+                                    maxabs(fh.hess() - refh) * hs ** 2 / fs, 1e-9, "plane-strain hess is not the zero-padded hessian",
+                                    unit=kind + ":hess")
+                    else:
+                        # FieldAxisymmetric has no hess of its own (the inherited one returns the in-plane 2x2x2 array): whatever the
+                        # padding, the in-plane block is the hessian of the polynomial
+                        hh = fem.FieldAxisymmetric(regh, dim=2, values=vals).hess()
+                        run.compare("field." + kind, "field=%s template=%s clause=hess-in-plane" % (kind, fam),
+                                    maxabs(hh[:2, :2, :2] - h2) * hs ** 2 / fs, 1e-9, "axisymmetric hess: the in-plane block is not the hessian of the polynomial",
+                                    unit=kind + ":hess")
     return fn
+
+
+AXIS_FAMILIES = ("quad", "quad9", "triangle6", "quad8", "triangle", "triangleMINI")
+
+
+def case_axis(rep):
+    """The hoop term u_r / R towards the axis (third audit, item 3): bodies that touch the axis of rotation, meshed with cells graded
+    towards it (innermost quadrature radius about 1e-4 of the outer radius), in four length units, with a radial displacement that
+    does not vanish on the axis. A cut-off (R < 1e-3 R_max), an np.isclose(R, 0) with its absolute 1e-8, or a clip of u_r / R is
+    invisible at R >= 0.7 body sizes. Judged in the product form g33 * R = u_r, which stays O(1) where u_r / R grows like 1 / R."""
+    def fn(run):
+        import felupe as fem
+        rng = rng_for(run.seed, "C06", "axis", rep)
+        fam = AXIS_FAMILIES[rep % 6]
+        unit = ((1.0,) + LENGTH_UNITS)[(rep + rep // 6) % 4]
+        F = gen.FAMILIES[fam]
+        r_ = unit * np.concatenate([[0.0], np.geomspace(5e-4, 1.0, int(rng.integers(7, 10)))])
+        z_ = unit * np.linspace(0.0, 0.7, int(rng.integers(3, 5)))
+        mesh = F["conv"](fem.Grid(z_, r_))  # rectangles (affine cells): first coordinate axial, second radial
+        reg = gen.make_region(fam, mesh)
+        X = mesh.points
+        exps = monomials_total(2, 1 if F.get("mini") else F["order"])
+        polys = [BodyPoly(Poly(rng, 2, exps), X) for _ in range(2)]
+        vals = np.stack([p(X) for p in polys], 1)
+        if F.get("mini"):
+            vals[mesh.cells[:, -1]] = 0.0
+        Xq = physical_qp(reg)
+        g2 = np.stack([np.moveaxis(p.grad(Xq), -1, 0) for p in polys], 0)
+        u2 = np.stack([p(Xq) for p in polys], 0)
+        fs = max(1.0, maxabs(vals))
+        g = fem.FieldAxisymmetric(reg, dim=2, values=vals).grad()
+        lab = "%s[unit=%g]" % (fam, unit)
+        run.compare("field.axisymmetric", "field=axisymmetric[body on the axis] template=%s clause=hoop-term" % fam,
+                    maxabs(g[2, 2] * Xq[..., 1] - u2[1]) / fs, 1e-11,
+                    "axisymmetric field on a body that touches the axis: g33 * R is not u_r at every quadrature point", unit="axisymmetric:on-axis",
+                    config=("on-axis", lab), sample={"template": fam, "unit": unit, "min_R/R_max": float(Xq[..., 1].min() / Xq[..., 1].max())})
+        ref = np.zeros_like(g)
+        ref[:2, :2] = g2
+        ref[2, 2] = g[2, 2]  # judged above
+        run.compare("field.axisymmetric", "field=axisymmetric[body on the axis] template=%s clause=grad-in-plane" % fam,
+                    maxabs(g - ref) * unit / fs, 1e-9,
+                    "axisymmetric field on a body that touches the axis: in-plane gradient / zero padding wrong", unit="axisymmetric:on-axis")
+    return fn
+
+
+def lagrange_reproduction(run, rng, order, dim, tag="", unit=None):
+    """RegionLagrange(order, dim) on its one-cell mesh in three geometric classes: tensor-degree `order` on the box, total degree `order`
+    on an affine image, degree 1 on a curved image; exact gradient products and volume on the straight-sided ones. `unit`: the box and
+    the curved image in another length unit (the affine maps draw theirs); `tag`: suffix of the units the clauses are counted under."""
+    import felupe as fem
+    mesh = gen.lagrange_mesh(order, dim)
+    for geometry in ("undistorted", "affine", "curved"):
+        m = mesh
+        exps = monomials_tensor(dim, order)
+        s = 1.0 if unit is None or geometry == "affine" else unit
+        if geometry == "affine":
+            A, t = gen.random_affine(rng, dim)
+            m = mesh.copy(points=mesh.points @ A.T + t)
+            exps = monomials_total(dim, order)
+        elif geometry == "curved":
+            m = mesh.copy(points=s * gen.smooth_map(rng, dim, eps=0.1)(mesh.points))
+            exps = monomials_total(dim, 1)
+        elif s != 1.0:
+            m = mesh.copy(points=s * mesh.points)
+        if order <= 4 or (order, dim) == (5, 2):
+            # (the round-off of the equidistant bases of order 6, 7 - and of order 5 in 3D - uses a tenth of the structural monitor's
+            # eps-based bounds, which were calibrated up to these orders: the others are judged by the reproduction clauses below only)
+            MR.attach_reload_hook(run)
+        try:
+            reg = fem.RegionLagrange(m, order=order, dim=dim)
+        finally:
+            attach.detach_all()
+        p = BodyPoly(Poly(rng, dim, exps), m.points)
+        fld = fem.Field(reg, dim=1, values=p(m.points).reshape(-1, 1))
+        Xq = physical_qp(reg)
+        lab = "RegionLagrange(order=%d,dim=%d)/%s" % (order, dim, geometry)
+        fs = max(1.0, maxabs(p(m.points)))
+        run.compare("region.lagrange", "template=%s clause=interpolate" % lab,
+                    maxabs(fld.interpolate()[0] - p(Xq)) / fs, 1e-10,
+                    "%s: polynomial not reproduced" % lab, unit="lagrange:interpolate" + tag, config=(lab, "interpolate", s))
+        run.compare("region.lagrange", "template=%s clause=grad" % lab,
+                    maxabs(fld.grad()[0] - np.moveaxis(p.grad(Xq), -1, 0)) * p.L / fs, 1e-9,
+                    "%s: polynomial gradient not reproduced" % lab, unit="lagrange:grad" + tag, config=(lab, "grad", s))
+        if not np.all(reg.dV > 0):
+            run.fail("region.lagrange", "template=%s clause=dV>0" % lab, "%s: non-positive dV on a valid cell" % lab)
+        if geometry != "curved":
+            # the template's default rule integrates products of shape-function gradients exactly on affine cells
+            ref = fem.RegionLagrange(m, order=order, dim=dim, quadrature=fem.GaussLegendre(order=order + 2, dim=dim))
+            gram = lambda r: np.einsum("aJqc,bJqc,qc->abc", r.dhdX, r.dhdX, r.dV)
+            K, Kref = gram(reg), gram(ref)
+            run.compare("region.lagrange", "template=%s clause=exact-gradient-products" % lab, maxabs(K - Kref) / maxabs(Kref), 1e-10,
+                        "%s: default quadrature does not integrate grad h_a . grad h_b exactly on an affine cell" % lab,
+                        unit="lagrange:exact-integration" + tag, config=(lab, "exact-integration"))
+            vol = float(np.prod(mesh.points.max(0) - mesh.points.min(0))) * s ** dim
+            if geometry == "affine":
+                vol *= float(np.linalg.det(A))
+            run.compare("region.lagrange", "template=%s clause=volume" % lab, abs(reg.dV.sum() - vol) / vol, 1e-11,
+                        "%s: volume" % lab, unit="lagrange:volume" + tag)
+
+
+def lagrange_curve(run, rng, order):
+    """RegionLagrange(dim=1) on a chain of VTK_LAGRANGE_CURVE cells (end points first, interior nodes ascending): equidistant interior
+    nodes (affine cells: degree `order` is reproduced) and displaced ones (curved cells: degree 1); the length is the distance of the ends."""
+    import felupe as fem
+    unit = ((1.0,) + LENGTH_UNITS)[order % 4]
+    nc = int(rng.integers(2, 5))
+    ends = unit * np.cumsum(np.concatenate([[rng.uniform(-1, 1)], rng.uniform(0.3, 1.0, nc)]))
+    for geometry in ("affine", "curved") if order > 1 else ("affine",):
+        pts, conn = list(ends), []
+        for c in range(nc):
+            a, b = ends[c], ends[c + 1]
+            inner = a + (b - a) * np.arange(1, order) / order
+            if geometry == "curved":
+                inner = inner + 0.15 * (b - a) / order * rng.uniform(-1, 1, order - 1)
+            conn.append([c, c + 1] + list(range(len(pts), len(pts) + order - 1)))
+            pts += list(inner)
+        X = np.array(pts).reshape(-1, 1)
+        m = fem.Mesh(X, np.array(conn), "VTK_LAGRANGE_CURVE")
+        if order <= 3:
+            MR.attach_reload_hook(run)
+        try:
+            reg = fem.RegionLagrange(m, order=order, dim=1)
+        finally:
+            attach.detach_all()
+        lab = "RegionLagrange(order=%d,dim=1)/%s" % (order, geometry)
+        length = float(ends[-1] - ends[0])
+        run.compare("region.lagrange", "template=%s clause=volume" % lab, abs(reg.dV.sum() - length) / length, 1e-11,
+                    "%s: sum dV is not the length of the chain" % lab, unit="lagrange:curve", config=(lab, "length", unit))
+        if not np.all(reg.dV > 0):
+            run.fail("region.lagrange", "template=%s clause=dV>0" % lab, "%s: non-positive dV on a valid chain" % lab)
+        p = BodyPoly(Poly(rng, 1, monomials_total(1, order if geometry == "affine" else 1)), X)
+        fld = fem.Field(reg, dim=1, values=p(X).reshape(-1, 1))
+        Xq = physical_qp(reg)
+        fs = max(1.0, maxabs(p(X)))
+        run.compare("region.lagrange", "template=%s clause=interpolate" % lab, maxabs(fld.interpolate()[0] - p(Xq)) / fs, 1e-10,
+                    "%s: polynomial not reproduced" % lab, unit="lagrange:curve", config=(lab, "interpolate"))
+        run.compare("region.lagrange", "template=%s clause=grad" % lab, maxabs(fld.grad()[0] - np.moveaxis(p.grad(Xq), -1, 0)) * p.L / fs, 1e-9,
+                    "%s: polynomial gradient not reproduced" % lab, unit="lagrange:curve", config=(lab, "grad"))
+
+
+def constant_regions(run, rng):
+    """Constant and vertex regions built directly (third audit, item 8; they were reached through FieldDual only): the documented recipe
+    `RegionConstantQuad(mesh.dual(points_per_cell=1, ...), quadrature=parent.quadrature, grad=False)` + `Field(region_dual)`, and a
+    RegionVertex on a cloud of points. A field on them takes the value of its cell's own unknown at every quadrature point."""
+    import felupe as fem
+    mon = "region.constant"
+    for k, (fam, Rname) in enumerate((("quad", "RegionConstantQuad"), ("quad8", "RegionConstantQuad"), ("quad9", "RegionConstantQuad"),
+                                      ("hexahedron", "RegionConstantHexahedron"), ("hexahedron20", "RegionConstantHexahedron"))):
+        mesh, _ = gen.build_mesh(fam, "distorted", rng)
+        parent = gen.make_region(fam, mesh)
+        disc = bool(k % 2)
+        dmesh = mesh.dual(points_per_cell=1, disconnect=disc)
+        MR.attach_reload_hook(run)
+        try:
+            rc = getattr(fem, Rname)(dmesh, quadrature=parent.quadrature, grad=False)
+        finally:
+            attach.detach_all()
+        ddim = 1 + k % 3
+        beta = rng.uniform(-1, 1, (mesh.ncells, ddim))
+        f = fem.Field(rc, dim=ddim)
+        f.values[dmesh.cells[:, 0]] = beta  # the first node of a cell is shared with no other cell on these grids
+        got = f.interpolate()
+        nq = len(parent.quadrature.points)
+        if got.shape != (ddim, nq, mesh.ncells) or len(np.unique(mesh.cells[:, 0])) != mesh.ncells:
+            run.fail(mon, "template=%s parent=%s clause=constant-shape" % (Rname, fam), "field on a constant region: interpolate() has shape %s" % (got.shape,))
+            continue
+        run.compare(mon, "template=%s parent=%s clause=constant-interpolate" % (Rname, fam), maxabs(got - beta.T[:, None, :]), 0.0,
+                    "field on a constant region built by the documented recipe is not its cell's value at every quadrature point of the parent's rule",
+                    unit="constant:interpolate", config=(Rname, fam, disc))
+    for d in (1, 2, 3):
+        n = int(rng.integers(2, 7))
+        P = rng.uniform(-1, 1, (n, d)) * LENGTH_UNITS[d % 3]
+        mv = fem.Mesh(P, np.arange(n).reshape(-1, 1), "vertex")
+        MR.attach_reload_hook(run)
+        try:
+            rv = fem.RegionVertex(mv)
+        finally:
+            attach.detach_all()
+        vals = rng.uniform(-1, 1, (n, 2))
+        got = fem.Field(rv, dim=2, values=vals).interpolate()
+        if got.shape != (2, 1, n):
+            run.fail(mon, "template=RegionVertex clause=vertex-shape", "field on a vertex region: interpolate() has shape %s" % (got.shape,))
+            continue
+        run.compare(mon, "template=RegionVertex clause=vertex-interpolate", maxabs(got[:, 0, :] - vals.T), 0.0,
+                    "field on a vertex region is not the value at the vertex", unit="constant:vertex", config=("RegionVertex", d))
 
 
 def case_variants(what):
@@ -638,9 +1156,11 @@ def case_variants(what):
                 if reg.dV.dtype != np.float64:
                     run.fail("region.float32", "clause=float32-copy", "astype modified the original region")
         elif what == "uniform":
-            for fam, n in (("quad", (4, 3)), ("hexahedron", (3, 4, 2)), ("quad9", (3, 4))):
+            for fam, n, unit in (("quad", (4, 3), 1.0), ("hexahedron", (3, 4, 2), 1.0), ("quad9", (3, 4), 1.0),
+                                 ("quad", (3, 5), LENGTH_UNITS[run.seed % 3]), ("hexahedron", (2, 3, 4), LENGTH_UNITS[(run.seed + 1) % 3]), ("quad9", (4, 3), LENGTH_UNITS[(run.seed + 2) % 3])):
                 F = gen.FAMILIES[fam]
                 mesh = F["conv"](F["base"](n))
+                mesh = mesh.copy(points=unit * mesh.points)  # the compressed storage in other length units as well
                 ru = gen.make_region(fam, mesh, uniform=True)
                 rg = gen.make_region(fam, mesh)
                 nc = mesh.ncells
@@ -649,7 +1169,7 @@ def case_variants(what):
                     bb = np.broadcast_to(b, a.shape) if b.shape[-1] == 1 else b
                     run.compare("region.uniform", "template=%s clause=uniform attr=%s" % (fam, attr),
                                 maxabs(a - bb) / maxabs(a), 1e-12, "uniform=True region differs from the general region in %s" % attr,
-                                unit="uniform", config=(fam, "uniform", attr))
+                                unit="uniform", config=(fam, "uniform", attr, unit))
                 vals = rng.standard_normal((mesh.npoints, F["dim"]))
                 fu = fem.Field(ru, dim=F["dim"], values=vals)
                 fg = fem.Field(rg, dim=F["dim"], values=vals)
@@ -659,54 +1179,24 @@ def case_variants(what):
             for order in (2, 3, 4) if run.tier == "quick" else (2, 3, 4, 5):
                 for dim in (2, 3):
                     if dim == 3 and order > 3:
-                        continue
-                    mesh = gen.lagrange_mesh(order, dim)
-                    for geometry in ("undistorted", "affine", "curved"):
-                        m = mesh
-                        exps = monomials_tensor(dim, order)
-                        if geometry == "affine":
-                            A, t = gen.random_affine(rng, dim)
-                            m = mesh.copy(points=mesh.points @ A.T + t)
-                            exps = monomials_total(dim, order)
-                        elif geometry == "curved":
-                            m = mesh.copy(points=gen.smooth_map(rng, dim, eps=0.1)(mesh.points))
-                            exps = monomials_total(dim, 1)
-                        MR.attach_reload_hook(run)
-                        try:
-                            reg = fem.RegionLagrange(m, order=order, dim=dim)
-                        finally:
-                            attach.detach_all()
-                        p = BodyPoly(Poly(rng, dim, exps), m.points)
-                        fld = fem.Field(reg, dim=1, values=p(m.points).reshape(-1, 1))
-                        Xq = physical_qp(reg)
-                        lab = "RegionLagrange(order=%d,dim=%d)/%s" % (order, dim, geometry)
-                        fs = max(1.0, maxabs(p(m.points)))
-                        run.compare("region.lagrange", "template=%s clause=interpolate" % lab,
-                                    maxabs(fld.interpolate()[0] - p(Xq)) / fs, 1e-10,
-                                    "%s: polynomial not reproduced" % lab, unit="lagrange:interpolate", config=(lab, "interpolate"))
-                        run.compare("region.lagrange", "template=%s clause=grad" % lab,
-                                    maxabs(fld.grad()[0] - np.moveaxis(p.grad(Xq), -1, 0)) * p.L / fs, 1e-9,
-                                    "%s: polynomial gradient not reproduced" % lab, unit="lagrange:grad", config=(lab, "grad"))
-                        if geometry != "curved":
-                            # the template's default rule integrates products of shape-function gradients exactly on affine cells
-                            ref = fem.RegionLagrange(m, order=order, dim=dim, quadrature=fem.GaussLegendre(order=order + 2, dim=dim))
-                            gram = lambda r: np.einsum("aJqc,bJqc,qc->abc", r.dhdX, r.dhdX, r.dV)
-                            K, Kref = gram(reg), gram(ref)
-                            run.compare("region.lagrange", "template=%s clause=exact-gradient-products" % lab, maxabs(K - Kref) / maxabs(Kref), 1e-10,
-                                        "%s: default quadrature does not integrate grad h_a . grad h_b exactly on an affine cell" % lab,
-                                        unit="lagrange:exact-integration", config=(lab, "exact-integration"))
-                            vol = 1.5 * 1.2 * (1.0 if dim == 3 else 1.0)
-                            vol = float(np.prod(mesh.points.max(0) - mesh.points.min(0)))
-                            if geometry == "affine":
-                                vol *= float(np.linalg.det(A))
-                            run.compare("region.lagrange", "template=%s clause=volume" % lab, abs(reg.dV.sum() - vol) / vol, 1e-11,
-                                        "%s: volume" % lab, unit="lagrange:volume")
+                        continue  # driven by variants:lagrange-high (a case of its own, for the wall time)
+                    lagrange_reproduction(run, rng, order, dim)
+        elif what == "lagrange-high":
+            # third audit, item 8: members of "arbitrary-order Lagrange" that were left out for cost (one cell costs 0.1 s) or never
+            # built: dim=3 with order >= 4, dim=2 with order 6, 7, order 1 (only seen as a dual parent), dim=1
+            for i, (order, dim) in enumerate(((1, 2), (1, 3), (4, 3), (6, 2)) if run.tier == "quick" else ((1, 2), (1, 3), (4, 3), (5, 3), (6, 3), (6, 2), (7, 2))):
+                lagrange_reproduction(run, rng, order, dim, tag="-high" if order > 1 else "-order1", unit=LENGTH_UNITS[(i + run.seed) % 3])
+            for order in (1, 2, 3, 5):
+                lagrange_curve(run, rng, order)
+        elif what == "constant":
+            constant_regions(run, rng)
         elif what == "dual":
             # constant / lower-order dual fields interpolate their own space
             parents = [(fam, None) for fam in ("quad", "hexahedron", "quad8", "quad9", "hexahedron20", "hexahedron27", "triangle6", "tetra10",
                                                "triangleMINI", "tetraMINI")]
             parents += [("lagrange", (order, dim)) for dim in (2, 3) for order in (1, 2, 3)]
             for fam, lag in parents:
+                fam0 = fam
                 if lag is None:
                     mesh, _ = gen.build_mesh(fam, "distorted" if not fam.startswith(("tri", "tet")) else "affine", rng)
                     reg = gen.make_region(fam, mesh)
@@ -773,7 +1263,105 @@ def case_variants(what):
                             "dual region shape functions do not sum to one", unit="dual:partition")
                 if got.shape != reg.dV.shape[-2:] and got.shape != (reg.quadrature.npoints, mesh.ncells):
                     run.fail("field.dual", "template=%s clause=dual-shape" % fam, "dual field not evaluated at the parent's quadrature points")
+                dual_options(run, rng, fam, lag, reg, mesh, parents.index((fam0, lag)))
     return fn
+
+
+def dual_options(run, rng, fam, lag, reg, mesh, ip):
+    """Third audit, item 7: FieldDual(disconnect=, dim > 1, mesh=) were never passed, and the dual of a Lagrange region was judged
+    against its own shape-function array only. The reference here is built from the parent alone: vertex functions of the base
+    cell in closed form (vmon/oracles/cells.py) resp. a polynomial of the dual order sampled at the documented VTK-Lagrange node
+    positions, evaluated at the points of the parent's rule; unknowns are addressed through the dual connectivity as a user would."""
+    import felupe as fem
+    from ..oracles import cells as OC
+    mon = "field.dual"
+    dim = mesh.dim
+    qp = np.asarray(reg.quadrature.points, float)
+    cells0, pts0 = mesh.cells.copy(), mesh.points.copy()
+    simplex = lag is None and fam.startswith(("tri", "tet"))
+    base = {(2, True): "triangle", (2, False): "quad", (3, True): "tetra", (3, False): "hexahedron"}[(dim, simplex)]
+    for k, disc in enumerate((None, True, False, "mesh")):
+        ddim = (1, 2, 3)[(ip + k) % 3]
+        if disc == "mesh":
+            # a dual mesh of the user: the default one, renumbered (points carry no meaning on dual meshes)
+            d0 = fem.FieldDual(reg).region.mesh
+            perm = rng.permutation(d0.npoints)
+            user = fem.Mesh(np.zeros((d0.npoints, dim)), perm[d0.cells], d0.cell_type)
+            fo = fem.FieldDual(reg, dim=ddim, mesh=user)
+            if fo.region.mesh is not user and not np.array_equal(fo.region.mesh.cells, user.cells):
+                run.fail(mon, "template=%s clause=dual-user-mesh" % fam, "FieldDual(mesh=) does not use the given mesh")
+                continue
+            dcells = user.cells
+        else:
+            fo = fem.FieldDual(reg, dim=ddim, disconnect=disc)
+            dcells = fo.region.mesh.cells
+        opt = "mesh=" if disc == "mesh" else "disconnect=%s" % disc
+        npc = dcells.shape[1]
+        if fo.values.shape != (fo.region.mesh.npoints, ddim) or dcells.shape[0] != mesh.ncells:
+            run.fail(mon, "template=%s clause=dual-dim[%s]" % (fam, opt), "FieldDual(dim=%d): values of shape %s" % (ddim, fo.values.shape))
+            continue
+        # ---- numbering (documented: None = disconnected except for quadratic simplex and MINI parents; disconnected = every cell
+        #      has its own unknowns; connected = cells share an unknown exactly where the parent's cells share that node)
+        if disc != "mesh":
+            want = (not (simplex and lag is None)) if disc is None else disc
+            pc, dc = mesh.cells[:, :npc].ravel(), dcells.ravel()
+            if want:
+                ok = len(np.unique(dc)) == dc.size
+            else:
+                ok = len(set(zip(pc.tolist(), dc.tolist()))) == len(np.unique(pc)) == len(np.unique(dc))
+            if ok:
+                run.ok(mon, unit="dual:numbering", config=(fam, "dual-numbering", opt))
+            else:
+                run.fail(mon, "template=%s clause=dual-numbering[%s]" % (fam, opt),
+                         "FieldDual(%s): the dual cells %s" % (opt, "share unknowns" if want else "do not share unknowns exactly where the parent's cells share nodes"))
+        # ---- a function of the dual space, sampled at the dual nodes, is reproduced at the parent's quadrature points
+        co = rng.uniform(-1, 1, (ddim, dim + 1))
+        if lag is not None and lag[0] > 1:
+            # Lagrange dual of order p - 1 on one cell: nodes at the equidistant VTK-Lagrange positions of that order
+            pd = lag[0] - 1
+            xi_a = 2.0 * OC.vtk_lagrange_grid(pd, dim) / pd - 1.0
+            if npc != len(xi_a):
+                run.skip(mon, "Lagrange dual with another node count than order^dim")
+                continue
+            polys = [Poly(rng, dim, monomials_tensor(dim, pd)) for _ in range(ddim)]
+            fo.values[dcells[0]] = np.stack([p(xi_a) for p in polys], axis=1)
+            ref = np.stack([p(qp) for p in polys], axis=0)[:, :, None]
+            what = "a tensor-degree-%d polynomial of the reference coordinates" % pd
+        elif npc == 1:
+            # one unknown per cell (connected numbering: the cell's first node, which no two cells of these grids share)
+            beta = rng.uniform(-1, 1, (mesh.ncells, ddim))
+            if len(np.unique(mesh.cells[:, 0])) != mesh.ncells and disc is False:
+                beta[:] = beta[0]
+            fo.values[dcells[:, 0]] = beta
+            ref = np.broadcast_to(beta.T[:, None, :], (ddim, len(qp), mesh.ncells))
+            what = "one value per cell"
+        elif npc == {"triangle": 3, "quad": 4, "tetra": 4, "hexahedron": 8}[base] and lag is None:
+            # vertex-based dual: a linear function of the parent's vertex coordinates (single-valued on shared vertices)
+            Xd = mesh.points[mesh.cells[:, :npc]]
+            L = float(np.ptp(mesh.points, axis=0).max())
+            X0 = mesh.points.mean(0)
+            fo.values[dcells.ravel()] = ((Xd.reshape(-1, dim) - X0) / L) @ co[:, :dim].T + co[:, dim]
+            Nq = np.array([OC.lin_shape(base, pt) for pt in qp])
+            ref = np.moveaxis(((np.einsum("qa,caI->qcI", Nq, Xd) - X0) / L) @ co[:, :dim].T + co[:, dim], -1, 0)
+            what = "a linear function of the vertex coordinates"
+        else:
+            run.skip(mon, "dual space with %d nodes per cell: no independent reference" % npc)
+            continue
+        got = fo.interpolate()
+        if got.shape != (ddim, len(qp), mesh.ncells):
+            run.fail(mon, "template=%s clause=dual-reproduction-shape[%s]" % (fam, opt), "FieldDual(dim=%d).interpolate() has shape %s" % (ddim, got.shape))
+            continue
+        run.compare(mon, "template=%s clause=dual-reproduction[%s]" % (fam, opt), maxabs(got - ref), 1e-12,
+                    "FieldDual(dim=%d, %s): %s sampled at the dual nodes is not reproduced at the parent's quadrature points" % (ddim, opt, what),
+                    unit="dual:lagrange-space" if lag is not None else "dual:options-space", config=(fam, "dual-space", opt, ddim))
+    if not (np.array_equal(mesh.cells, cells0) and np.array_equal(mesh.points, pts0)):
+        run.fail(mon, "template=%s clause=parent-mesh-untouched options=disconnect/mesh" % fam, "creating a dual field modified the parent mesh in place")
+        mesh.update(cells=cells0, points=pts0)
+    # FieldsMixed with one initial value per field (documented: values=(0.0, 0.0, 1.0, ...)): the dual fields are those constants
+    cvals = (0.0, float(rng.uniform(-1, 1)), float(rng.uniform(0.8, 1.2)))
+    ex = fem.FieldsMixed(reg, n=3, values=cvals).extract()
+    run.compare(mon, "template=%s clause=mixed-initial-values" % fam, max(maxabs(ex[1] - cvals[1]), maxabs(ex[2] - cvals[2]), maxabs(ex[0] - np.eye(dim).reshape(dim, dim, 1, 1))), 1e-13,
+                "FieldsMixed(values=(0, p, J)): the fields do not start at these constants (F = I, p, J)", unit="dual:mixed-values", config=(fam, "mixed-values"))
 
 
 def case_family_equality(rep):
@@ -804,16 +1392,21 @@ def case_family_equality(rep):
 def cases(tier, seed):
     out = []
     reps = 1 if tier == "quick" else 4
-    for fam in gen.FAMILIES:
-        for geo in gen.GEOMETRIES:
+    for ifam, fam in enumerate(gen.FAMILIES):
+        for igeo, geo in enumerate(gen.GEOMETRIES):
             for rep in range(reps):
                 out.append(("%s:%s:%d" % (fam, geo, rep), case_family(fam, geo, rep)))
+                if geo != "affine":  # the generator draws the unit of the affine class itself
+                    unit = LENGTH_UNITS[(ifam + igeo + rep) % 3]
+                    out.append(("%s:%s:%d@unit" % (fam, geo, rep), case_family(fam, geo, rep, unit=unit)))
         out.append(("warning:" + fam, case_warning(fam)))
         if not gen.FAMILIES[fam].get("mini"):
             out.append(("exact:" + fam, case_exact_integration(fam)))
     for kind in ("planestrain", "axisymmetric"):
         out.append(("fields:" + kind, case_fields(kind)))
-    for what in ("float32", "uniform", "lagrange", "dual"):
+    for rep in range(6 if tier == "quick" else 24):
+        out.append(("axis:%d" % rep, case_axis(rep)))
+    for what in ("float32", "uniform", "lagrange", "dual", "lagrange-high", "constant"):
         out.append(("variants:" + what, case_variants(what)))
     for rep in range(reps):
         out.append(("family-equality:%d" % rep, case_family_equality(rep)))
@@ -833,14 +1426,23 @@ def _required():
            "dual:interpolate", "dual:constant", "dual:linear", "dual:options", "dual:parent-untouched", "planestrain:grad", "axisymmetric:grad", "planestrain:hess", "family-equality"]
     for fam in gen.FAMILIES:
         req += [fam + ":dV>0", fam + ":volume", fam + ":rigid-motion", fam + ":interpolate", fam + ":grad", fam + ":warning"]
+        req += [fam + ":volume@scaled", fam + ":interpolate@scaled", fam + ":grad@scaled"]
         if fam in HESS_FAMILIES:
-            req.append(fam + ":hess")
+            req += [fam + ":hess", fam + ":hess@scaled"]
         if not gen.FAMILIES[fam].get("mini"):
             req.append(fam + ":exact-integration")
     req += ["more:" + u for u in ("sliced-template", "bubble", "sym-2d", "extract-lists", "float32-hess", "lagrange-unpermuted", "line-region", "axisymmetric-uniform")]
     req += ["paths:" + u for u in ("copy-hess", "dhdr-pairing", "extract-flags", "extract-out", "float32-field", "grad-out", "grad-sym", "h-pairing",
                                    "interpolate-out", "lagrange-multicell", "mixed-extract", "reload", "bare-reload", "uniform-hess", "uniform-sheared")]
     req += ["boundary-template:%s:grad" % f for f in BOUNDARY_TEMPLATES]
+    # third audit
+    req += [fam + ":warning-folded" for fam in gen.FAMILIES if not fam.startswith(("tri", "tet"))]
+    req += ["more:bubble-hess", "axisymmetric:hess", "axisymmetric:on-axis"]
+    req += ["%s:grad:%s" % (kind, fam) for kind in ("planestrain", "axisymmetric") for fam in ("quad9", "triangle6", "triangleMINI", "lagrange")]
+    req += ["paths:" + u for u in ("copy-args", "reload-args", "astype-inplace", "uniform-reload", "field-args")]
+    req += ["dual:numbering", "dual:options-space", "dual:lagrange-space", "dual:mixed-values"]
+    req += ["lagrange:grad-high", "lagrange:grad-order1", "lagrange:exact-integration-high", "lagrange:curve"]
+    req += ["structural:constant", "constant:interpolate", "constant:vertex"]
     return req
 
 
